@@ -2,7 +2,8 @@
    Receiver-level theorems (no assumption on the network, the peers or the scheduler):
    they hold for every configuration and EVERY list of input items. *)
 From Coq Require Import ZArith List Bool Lia.
-From OF Require Import Base.Str Proto.Wire Proto.Receiver Proto.Receiver_Lemmas Proto.Receiver_Safety.
+From OF Require Import Base.Str Proto.Wire Proto.Receiver Proto.Receiver_Lemmas Proto.Receiver_Safety
+                       Proto.Receiver_Generic Proto.Receiver_Complete Proto.Sender Proto.Sender_Safety Proto.MQGlue.
 Import ListNotations.
 Open Scope Z_scope.
 
@@ -21,6 +22,40 @@ Proof.
 Qed.
 Print Assumptions C01_no_mixed_ids.
 
+(* ... and for each synchronized source the set holds ALL the subscribed topics that source published
+   under the returned id, never a subset.  [L i mid] is the topic list source i publishes under id mid;
+   the hypothesis says every message delivered to source i under id mid carries that list (one publish =
+   one topic list: C01_publisher_wf below discharges it for real senders).  [tmap] is the subscription's
+   topic renaming. *)
+Theorem C01_complete_per_source :
+  forall (L : nat -> Z -> list str) cid low_latency cs its,
+    Forall (fun it => match it with IDeliver i m => w_topics m = L i (w_mid m) | _ => True end) its ->
+    forall data id bal, In (ORet data id bal) (snd (rrun Repaired (init_receiver cid false low_latency cs) its)) ->
+    forall i c, nth_error cs i = Some c -> sc_eph c = 0 ->
+    forall t, wanted (sc_mode c) (L i id) t -> exists sm, In (tmap c t, sm) data.
+Proof. exact receiver_complete_per_source. Qed.
+Print Assumptions C01_complete_per_source.
+
+(* one publish = one id and one topic list: every SOPub carries topics = the topics of its parts *)
+Theorem C01_publisher_wf :
+  forall nout bal required its outs mid b topics parts,
+    In (SOPub outs mid b topics parts) (snd (srun (init_sender nout bal required) its)) -> topics = map fst parts.
+Proof.
+  intros nout bal required its outs mid b topics parts Hin.
+  pose proof (sender_publish_shape nout bal required its) as H. rewrite Forall_forall in H.
+  exact (proj1 (H _ Hin)).
+Qed.
+Print Assumptions C01_publisher_wf.
+
+(* the id a set was received under is the id its result is published under (message-id sync) *)
+Theorem C01_id_carried :
+  forall m data st r called ret lazy frames,
+    process_frames r = Some (lazy, frames) ->
+    let '(_, m', _) := mq_recv true m (Some (data, st)) in
+    fst (fst (mq_send true m' (process_frames r) called ret)) = Call (Some st) lazy frames.
+Proof. intros m data st r called ret lazy frames E. cbn. rewrite E. destruct ret; reflexivity. Qed.
+Print Assumptions C01_id_carried.
+
 (* The pinned commit's receiver violates the statement: history W1 (a newer id reaches a subscribe-all
    source that holds nothing while another source holds the expected id). *)
 Definition w1_cfg : list srccfg :=
@@ -38,8 +73,8 @@ Theorem C01_no_mixed_ids_refuted_pinned :
     In (ORet data id bal) (snd (rrun Pinned (init_receiver 7 false false w1_cfg) w1_items)) /\
     In (t, sm) data /\ nth_error w1_cfg (st_src sm) = Some c /\ sc_eph c = 0 /\ st_mid sm <> id.
 Proof.
-  exists [([97], {| st_pay := 1; st_mid := 0; st_src := 0 |}); ([98], {| st_pay := 2; st_mid := 1; st_src := 1 |})].
-  exists 1, 0, [97], {| st_pay := 1; st_mid := 0; st_src := 0 |}, {| sc_eph := 0; sc_mode := SubAll; sc_uid := 0 |}.
+  exists [([97], {| st_pay := 1; st_mid := 0; st_src := 0; st_topic := [97] |}); ([98], {| st_pay := 2; st_mid := 1; st_src := 1; st_topic := [98] |})].
+  exists 1, 0, [97], {| st_pay := 1; st_mid := 0; st_src := 0; st_topic := [97] |}, {| sc_eph := 0; sc_mode := SubAll; sc_uid := 0 |}.
   vm_compute. split; [repeat (try (left; reflexivity); right)|].
   split; [left; reflexivity|]. split; [reflexivity|]. split; [reflexivity|discriminate].
 Qed.
